@@ -48,6 +48,16 @@ def _kw(c: ast.Call) -> dict:
     return {k.arg: ast.unparse(k.value) for k in c.keywords}
 
 
+def _vm_collection(fn_node: ast.AST, it: ast.AST) -> bool:
+    """The iterated collection is the vm's objects, possibly narrowed to the worker through a local."""
+    if ast.unparse(it) == "vm_objects":
+        return True
+    if isinstance(it, ast.Name):
+        ds = [s_ for s_ in ast.walk(fn_node) if isinstance(s_, ast.Assign) and len(s_.targets) == 1 and ast.unparse(s_.targets[0]) == it.id]
+        return len(ds) == 1 and any(isinstance(n_, ast.Name) and n_.id == "vm_objects" for n_ in ast.walk(ds[0].value))
+    return False
+
+
 def update_flags(ctx: Ctx, rule: str) -> None:
     fn = ctx.repo.func(UPD)
     ctx.require_locals(UPD, ["clean_graph", "run_graph", "skip_graph", "setup_dict", "flag_state", "vm_objects", "from_state", "to_state", "vm_name", "worker"])
@@ -74,7 +84,7 @@ def update_flags(ctx: Ctx, rule: str) -> None:
                 problems["1"].append((f"the clean graph is not first flagged to {ft[1:-1]} nothing: {ast.unparse(c)[:100]}", v))
         # C15.2 clean flag
         cleans = [c for i, c in flags[2:] if _kw(c).get("flag_type") == "'clean'"]
-        iter_steps = [s for s in v.steps if s.kind == "iter" and ast.unparse(s.node.iter) == "vm_objects" and s.extra == "next"
+        iter_steps = [s for s in v.steps if s.kind == "iter" and _vm_collection(fn.node, s.node.iter) and s.extra == "next"
                       and any(call_name(c) == "flag_children" and _kw(c).get("flag_type") == "'clean'" for c in calls_in(s.node))]
         if iter_steps:
             if not cleans:
@@ -99,7 +109,7 @@ def update_flags(ctx: Ctx, rule: str) -> None:
                     or _kw(rest[0][1]) != {"flag_type": "'run'", "flag": FALSE}:
                 problems["4"].append(("with a starting state the path up to it is not first cleared from running", v))
             fc = [c for i, c in rest[1:]]
-            if rest and any(s.kind == "iter" and ast.unparse(s.node.iter) == "vm_objects" and s.extra == "next"
+            if rest and any(s.kind == "iter" and _vm_collection(fn.node, s.node.iter) and s.extra == "next"
                             and any(call_name(c) == "flag_children" and _kw(c).get("flag_type") == "'run'" for c in calls_in(s.node)) for s in v.steps):
                 if not fc:
                     problems["4"].append(("the starting state itself is not flagged to run again", v))
@@ -149,6 +159,31 @@ def update_flags(ctx: Ctx, rule: str) -> None:
     src = ast.unparse(fn.node)
     ok5 = "install_nodes = run_graph.get_nodes_by_name('all.original')" in src and "run_graph.new_nodes(install_nodes)" in src
     ctx.record(rule + "4i", "PROV", UPD, "to_state == install: the run graph is reduced to the 'all.original' node(s)", ok5, {}, "" if ok5 else "updating only the installation runs more than the installation")
+
+
+def worker_variants(ctx: Ctx, rule: str) -> None:
+    """A worker may support only some variants of the selected vm (net restrictions such as only_vm1 = Fedora): the variants flagged for a
+    worker are those its restrictions admit.  Flagging a variant the worker has no node for raises (AssertionError -> ValueError) and
+    rejects the whole update although the requested states exist."""
+    fn = ctx.repo.func(UPD)
+    ctx.touch(UPD)
+    wl = the_loop(ctx, UPD, ast.For, lambda l: ast.unparse(l.iter) == "graph.workers.values()", "worker loop of update")
+    loops = [l for l in ast.walk(wl) if isinstance(l, ast.For) and l is not wl and any(call_name(c) == "flag_children" for c in calls_in(l)) and _vm_collection(fn.node, l.iter)]
+    bad = []
+    for l in loops:
+        it = l.iter
+        src = ""
+        if isinstance(it, ast.Name):
+            ds = [s_ for s_ in ast.walk(fn.node) if isinstance(s_, ast.Assign) and len(s_.targets) == 1 and ast.unparse(s_.targets[0]) == it.id]
+            src = ast.unparse(ds[0].value) if len(ds) == 1 else ""
+        narrowed = "worker.net.restrs" in src or "worker.restrs" in src
+        if not narrowed:
+            bad.append(f"line {l.lineno}: for {ast.unparse(l.target)} in {ast.unparse(it)}")
+    ok = len(loops) >= 2 and not bad
+    ctx.record(rule, "GUARD", UPD, "per worker the flagged vm variants are narrowed by that worker's own restrictions for the vm (a variant the worker cannot have is skipped, not an error)",
+               ok, {"loops": len(loops), "unnarrowed": bad},
+               "" if ok else f"update flags every variant of the vm on every worker ({bad[0] if bad else 'loops not found'}): a worker whose net admits only some variants "
+               "(only_vm1 = Fedora) has no node for the others, flag_children raises and the update is rejected with a misleading 'could not identify a test node'")
 
 
 def update_pinning(ctx: Ctx, rule: str) -> None:
@@ -387,6 +422,7 @@ def run(ctx: Ctx) -> None:
     ctx.call(intersection_target, "6t")
     ctx.call(update_flags, "")
     ctx.call(update_pinning, "5")
+    ctx.call(worker_variants, "2w")
     from .c05 import sync_table
 
     ctx.call(sync_table, "8")
